@@ -147,12 +147,51 @@ def _to_symbolic_repr(model: Model) -> SymbolicRepr:
     return sym
 
 
+def _register_fn(
+    functions: dict[str, tuple[sympy.Expr, list[str]]],
+    fn_name: str,
+    expr: sympy.Expr,
+    args: list[str],
+) -> str:
+    """Register a function to be written out and return the name to refer to it.
+
+    A function is written once per name, with the names of the model arguments as
+    its parameters. That only works for further uses which are the same expression
+    up to the names of the arguments, every other use gets a name of its own. An
+    argument which is passed more than once needs distinct parameter names.
+    """
+    params: list[str] = []
+    for arg in args:
+        param, n = arg, 0
+        while param in params:
+            n += 1
+            param = f"{arg}_{n}"
+        params.append(param)
+
+    def positional(expr: sympy.Expr, params: list[str]) -> sympy.Basic:
+        return expr.xreplace(
+            {sympy.Symbol(p): sympy.Symbol(f"__arg{i}") for i, p in enumerate(params)}
+        )
+
+    name, n = fn_name, 0
+    while (existing := functions.get(name)) is not None:
+        if len(existing[1]) == len(params) and positional(*existing) == positional(
+            expr, params
+        ):
+            break
+        n += 1
+        name = f"{fn_name}_{n}"
+    functions[name] = (expr, params)
+    return name
+
+
 def _codegen_variable(
     k: str, var: SymbolicVariable, functions: dict[str, tuple[sympy.Expr, list[str]]]
 ) -> str:
     if isinstance(init := var.value, SymbolicFn):
-        fn_name = f"init_{init.fn_name}"
-        functions[fn_name] = (init.expr, init.args)
+        fn_name = _register_fn(
+            functions, f"init_{init.fn_name}", init.expr, init.args
+        )
         return f"""        .add_variable(
             {k!r},
             initial_value=InitialAssignment(fn={fn_name}, args={init.args!r}),
@@ -168,8 +207,9 @@ def _codegen_parameter(
     k: str, par: SymbolicParameter, functions: dict[str, tuple[sympy.Expr, list[str]]]
 ) -> str:
     if isinstance(init := par.value, SymbolicFn):
-        fn_name = f"init_{init.fn_name}"
-        functions[fn_name] = (init.expr, init.args)
+        fn_name = _register_fn(
+            functions, f"init_{init.fn_name}", init.expr, init.args
+        )
         return f"""        .add_parameter(
             {k!r},
             value=InitialAssignment(fn={fn_name}, args={init.args!r}),
@@ -206,11 +246,11 @@ def generate_mxlpy_code_from_symbolic_repr(
     # Derived
     derived_source = []
     for k, fn in model.derived.items():
-        functions[fn.fn_name] = (fn.expr, fn.args)
+        fn_name = _register_fn(functions, fn.fn_name, fn.expr, fn.args)
         derived_source.append(
             f"""        .add_derived(
                 {k!r},
-                fn={fn.fn_name},
+                fn={fn_name},
                 args={fn.args},
             )"""
         )
@@ -219,13 +259,17 @@ def generate_mxlpy_code_from_symbolic_repr(
     reactions_source = []
     for k, rxn in model.reactions.items():
         fn = rxn.fn
-        functions[fn.fn_name] = (fn.expr, fn.args)
+        rxn_fn_name = _register_fn(functions, fn.fn_name, fn.expr, fn.args)
 
         stoichiometry: list[str] = []
         for var, stoich in rxn.stoichiometry.items():
             if isinstance(stoich, SymbolicFn):
-                fn_name = f"{k}_stoich_{stoich.fn_name}"
-                functions[fn_name] = (stoich.expr, stoich.args)
+                fn_name = _register_fn(
+                    functions,
+                    f"{k}_stoich_{stoich.fn_name}",
+                    stoich.expr,
+                    stoich.args,
+                )
                 stoichiometry.append(
                     f""""{var}": Derived(fn={fn_name}, args={stoich.args!r})"""
                 )
@@ -236,7 +280,7 @@ def generate_mxlpy_code_from_symbolic_repr(
         reactions_source.append(
             f"""        .add_reaction(
                 "{k}",
-                fn={fn.fn_name},
+                fn={rxn_fn_name},
                 args={fn.args},
                 stoichiometry={{{",".join(stoichiometry)}}},
             )"""
@@ -249,6 +293,15 @@ def generate_mxlpy_code_from_symbolic_repr(
         sympy_to_python_fn(fn_name=name, args=args, expr=expr)
         for name, (expr, args) in functions.items()
     )
+    # The function bodies are printed with fully qualified names
+    imports = [
+        *imports,
+        *(
+            f"import {module}"
+            for module in ("math", "scipy.special")
+            if f"{module}." in functions_source and f"import {module}" not in imports
+        ),
+    ]
     source = [
         *imports,
         "from mxlpy import Model, Derived, InitialAssignment\n",
